@@ -29,9 +29,7 @@ def P(pid, **kw):
 P('C12',
   design_ref='7/C12',
   technique='CBMC code contracts (dfcc) enforced on the real ec_base.c; loop-free full-domain proofs against a polynomial spec',
-  level_text='Proof for all inputs: gf_mul equals carry-less multiplication mod 0x11D for all 65536 pairs, gf_inv is the inverse for all a, '
-             'gf_vect_mul_init writes exactly the 32 products c*i / c*(16i), every gf_table_gfni entry is the affine matrix of multiplication by c, '
-             'ec_init_tables_base places block (i*k+j); thorough tier repeats gf_mul/gf_inv for the GF_LARGE_TABLES build and the 32-bit table-init path.',
+  level_text='Proof for all inputs (SAT, full domain): gf_mul equals carry-less multiplication mod 0x11D for all 65536 pairs, gf_inv is the inverse for all a, gf_vect_mul_init writes exactly the 32 products c*i / c*(16i) (64-bit and byte-wise bodies), every gf_table_gfni entry and every ec_init_tables_gfni table word is the affine matrix of multiplication by the coefficient, ec_init_tables_base places the 32-byte expansion of a[i*k+j] in block i*k+j (k,rows<=8 quick, <=32 thorough); the GF_LARGE_TABLES build is proved against its 64 KiB table.',
   level_note='Trusted: CBMC 6.11 + MiniSat, the splice step, the hand-written spec_gf_mul (itself checked for the field axioms and by native check values). '
              'Nothing in C is left out for the default build.',
   assumptions=[],
@@ -41,104 +39,97 @@ P('C12',
 TECH = 'CBMC 6.11 code contracts (goto-instrument --dfcc: enforce/replace, loop contracts) on the real C sources spliced mechanically; native replay of counterexamples'
 
 P('C04', design_ref='7/C04', technique=TECH + '; ghost fold array for the CRC recurrence',
-  level_text='Proof, unbounded length: each portable table-driven CRC (crc16_t10dif(+copy), crc32_ieee, crc32_gzip_refl, crc32_iscsi, eight crc64 variants) returns fin(S[len]) where S[0]=init(seed) and '
-             'S[i+1] is the bit-by-bit LFSR step of the published polynomial - i.e. every table entry, shift direction, index expression and the seed/final-xor convention are checked for all states, bytes and lengths; '
-             'frames are empty (copy form: exactly dst[0..len), dst[g]==src[g]). Adler-32: memory safety, overflow freedom and frame unbounded; functional equality bounded (see evidence). Composition lemmas over the contracts.',
+  level_text='Proof, unbounded length: each of the 13 portable table-driven CRCs returns fin(S[len]) with S[0]=init(seed) and S[i+1] the bit-by-bit LFSR step of the published polynomial (every table entry, shift direction, index expression and seed/final-xor convention checked for all states, bytes and lengths; crc16 also beyond INT_MAX bytes), frames empty (copy form: dst[g]==src[g], only dst written); composition over two pieces proved over the contracts for all 12 CRC routines. Adler-32: memory safety, overflow freedom of the deferred-reduction schedule and frame unbounded; functional equality with the per-byte definition is BOUNDED (len<=256 quick, <=1024 thorough).',
   level_note='Trusted: CBMC+MiniSat, splice step, spec step functions (anchored by published check values in setup), ghost fold axioms. Not decided: every assembly variant (by4/by8/by16, adler32_sse/avx2) and the dispatchers.',
   assumptions=['the per-iteration ghost axiom S[i+1]==spec_step(S[i],buf[i]) defines the reference sequence; composition over pieces follows from the contract shape by induction on the pieces (not mechanised beyond the stated lemmas)'],
   not_decided=['all *_by4/_by8/_by16_10/_01/_02 assembly, adler32_sse/avx2, folding constants, dispatcher choice'])
 
 P('C19', design_ref='7/C19', technique=TECH,
-  level_text='Proof per call: isal_write_zlib_header / isal_write_gzip_header emit exactly the RFC 1950 / RFC 1952 byte layout (byte order, FCHECK, CRC16 placement) or return the required size leaving the stream untouched; '
-             'header readers and their resumable helpers return only documented codes on arbitrary bytes, stay inside the declared buffers and decode fields in RFC byte order. The many-call resume induction is stated, not mechanised.',
+  level_text='Proof per call: isal_write_zlib_header / isal_write_gzip_header emit exactly the RFC 1950 / RFC 1952 layout (byte orders, FCHECK, XLEN, NUL-terminated strings, CRC16 = low 16 bits of the recorded CRC-32 call) or return the required size leaving the stream untouched; fixed_size_read (for every avail_in), buffer_header_copy, string_header_copy, isal_read_zlib_header and isal_read_gzip_header (per resume point) return only documented codes on arbitrary bytes, stay inside the declared buffers, decode in RFC byte order and re-establish the resumable-state invariant; zlib writer->reader round-trip lemma. The induction over many resumed calls is stated, not mechanised.',
   level_note='Trusted: CBMC+MiniSat, splice step; ASSUMED contracts for strnlen (no CBMC model) and the dispatched crc32_gzip_refl used for the header CRC16. Not decided: induction over arbitrary call histories.',
   assumptions=['crc32_gzip_refl (dispatched assembly) and strnlen are used through assumed contracts'],
   not_decided=['the induction over call histories for resumed reads'])
 
 P('C20', design_ref='7/C20', technique=TECH + '; ghost byte position',
-  level_text='Proof for every length and every byte position (portable variant): mem_zero_detect_base returns 0 only if every byte is zero (ghost position), returns 0 when all bytes are zero, reads exactly [buf,buf+n), writes nothing; word loop closed by a loop invariant with decreases clause.',
+  level_text='Proof for every length and byte position (portable variant): mem_zero_detect_base returns 0 only if the ghost byte is zero, -1 if it is not, 0 for a zeroed region of any size and for n==0, reads exactly [buf,buf+n) and writes nothing; word loop closed by loop invariant and decreases clause.',
   level_note='Trusted: CBMC+MiniSat, splice step. Not decided: mem_zero_detect_{sse,avx,avx2,avx512} and the dispatcher (assembly); alignment is not modelled.',
   assumptions=[], not_decided=['assembly variants and dispatcher'])
 
 P('C08', design_ref='7/C08', technique=TECH + '; ghost byte position, ghost XOR/Horner folds',
-  level_text='Proof for every length (portable variants): xor_gen_base writes P = XOR of sources, pq_gen_base additionally Q = sum 2^i*D_i over GF(2^8)/0x11D (SWAR multiply-by-2 proved equal to the bytewise definition for all 2^64 words), only the parity buffers are written; '
-             'xor_check_base / pq_check_base return 0 exactly for consistent arrays at every ghost position; argument combinations below the documented minimum return non-zero with empty frame. vects bounded by the harness-built pointer array (parameter-bounded).',
+  level_text='Proof for every length (portable variants): xor_gen_base writes P = XOR of the sources, pq_gen_base additionally Q = sum 2^i*D_i over GF(2^8)/0x11D (SWAR multiply-by-2 proved for all 2^64 words), only the parity buffers are written; xor_check_base / pq_check_base return 0 exactly for parity-consistent arrays at every ghost position; argument counts below the documented minimum return non-zero with an empty frame. Number of vectors bounded by the harness-built pointer array (8, pq 4 in quick).',
   level_note='Trusted: CBMC+MiniSat, splice step, spec_gf. Not decided: assembly generators/checkers; the algebraic fact that P,Q allow rebuilding any two lost blocks.',
   assumptions=['number of vectors limited to the size of the harness-built pointer array (stated in bounds)'],
   not_decided=['xor/pq *_sse/avx/avx2/avx512 variants', 'two-erasure recoverability (algebra over the proved definitions)'])
 
 P('C03', design_ref='7/C03', technique=TECH + '; ghost (row,byte) index, ghost XOR fold; assumed contracts for NASM kernels',
-  level_text='Proof for every block length and table content: gf_vect_dot_prod_base / ec_encode_data_base write into each output block exactly the GF(2^8) combination of the sources, only the output blocks are written; '
-             'the C row-batching glue ec_encode_data_{sse,avx,avx2,avx512,avx512_gfni,avx2_gfni} hands every row to exactly one kernel call with the right destination and table pointer (kernels assumed). k/rows bounded by harness-built pointer arrays.',
+  level_text='Proof for every block length and table content: gf_vect_dot_prod_base / ec_encode_data_base write into each output block exactly the GF(2^8) combination of the sources, only the output blocks are written (srcs<=4/8, dests<=3/4 from harness-built pointer arrays); the twelve C row-batching wrappers hand every row (rows,k<=255) to exactly one kernel call with the right destination slot, table pointer (stride 32 / 8 for GFNI) and unchanged len/k/data, or to the portable function below the vector width. Kernels are assumed contracts.',
   level_note='Trusted: CBMC+MiniSat, splice step, spec_gf; ASSUMED contracts of all gf_Nvect_dot_prod_<isa> kernels. Not decided: kernel bodies, alignment effects, dispatcher.',
   assumptions=['assembly kernels used through assumed contracts equal to the statement proved for the portable twin'],
   not_decided=['every dot-product kernel body', 'ec_multibinary dispatch'])
 
 P('C13', design_ref='7/C13', technique=TECH,
-  level_text='Proof for every length: gf_vect_mad_base / ec_encode_data_update_base add exactly coefficient*source to each parity byte and touch only parity blocks; gf_vect_mul_base rejects len%32!=0 without writing and otherwise writes c*src; '
-             'lemmas: update twice cancels, updates commute; glue ec_encode_data_update_* dispatches every row exactly once (kernels assumed).',
+  level_text='Proof for every length: gf_vect_mad_base / ec_encode_data_update_base add exactly coefficient*source to each parity byte and touch only parity blocks; gf_vect_mul_base rejects len%32!=0 without writing and otherwise writes c*src; lemmas over the contract: update twice cancels, updates commute, any order of k<=4 updates equals the full encode; the six update wrappers dispatch every row exactly once (kernels assumed).',
   level_note='Trusted: as C03; ASSUMED contracts of gf_Nvect_mad_<isa>. Not decided: mad/mul kernels, induction "all k updates = full encode" (stated).',
   assumptions=['assembly mad kernels through assumed contracts'], not_decided=['mad/mul kernels', 'induction over k updates'])
 
 P('C09', design_ref='7/C09', technique=TECH + '; bounded unwinding for inversion correctness',
-  level_text='Proof: gf_gen_cauchy1_matrix / gf_gen_rs_matrix produce identity top block and the documented coefficient formulas for all m,k in range; gf_invert_matrix memory safety, frame and termination for all n<=128. '
-             'Inversion correctness (in*out==I, -1 iff singular) is a BOUNDED stand-in for small n (listed separately, never counted as proof).',
+  level_text='Proof: gf_gen_cauchy1_matrix / gf_gen_rs_matrix produce the identity top block and 1/(i^j) resp. 2^((i-k)*j mod 255) below (k<=m<=16 and k<=3,m<=256 quick; k<=m<=256 thorough); gf_invert_matrix memory safety, frame, termination and return set for n<=8 (quick) / n<=128 (thorough). Inversion correctness (in*out==I, -1 iff singular) is a BOUNDED stand-in: n<=3 over {0,1}, n<=2 with entries <16.',
   level_note='Trusted: CBMC+MiniSat, spec_gf, proved gf_mul/gf_inv contracts. Not decided: Cauchy-determinant theorem (every k rows invertible), safe (m,k) table of the Vandermonde generator.',
   assumptions=['Cauchy determinant theorem and the documented safe (m,k) list are mathematical facts outside any code contract'],
   not_decided=['invertibility of every k-subset', 'inversion correctness beyond the stated n'])
 
 P('C11', design_ref='7/C11', technique=TECH,
-  level_text='Proof per call: write_trailer emits LE32(crc)||LE32(total_in) (gzip) / BE32 Adler-32 (zlib) after the flushed final bits and only then enters the end state; check_gzip_checksum / check_zlib_checksum accept exactly when the logical trailer bytes equal the running checksum (and length), for every split of the trailer across bit buffer, tmp buffer and input.',
+  level_text='Proof per call: write_trailer emits LE32(crc)||LE32(total_in) (gzip) / BE32 Adler-32 (zlib) after the flushed final bits and only then enters the end state; the checksum routine selected by the wrapper is called exactly once over exactly the bytes consumed/delivered (isal_deflate_pass, write_constant_compressed_stateless, isal_inflate, isal_inflate_stateless drivers); check_gzip_checksum / check_zlib_checksum accept exactly when the logical trailer bytes equal the running checksum (and length) for every split across bit buffer, carry buffer and input (exhaustive over the admissible splits); finalize_adler32.',
   level_note='Trusted: CBMC+MiniSat; ASSUMED contracts for the dispatched crc32_gzip_refl / isal_adler32 (their portable twins are proved under C04). Not decided: that the running checksum covers exactly the produced bytes across the whole isal_inflate/isal_deflate state machines.',
   assumptions=['checksum kernels via assumed contracts'], not_decided=['whole-pipeline checksum accumulation'])
 
 P('C10', design_ref='7/C10', technique=TECH,
-  level_text='Proof for the stored path and parameter checks: write_stored_block / write_type0_header exact layout and counters, never beyond avail_out; check_level_req rejects invalid level / level_buf before any write; stateless stored-size bound with the compression kernel under an assumed contract.',
+  level_text='Proof for the framing code: bit writer (exactly 8 writable bytes, pending+count<=63 as call-site obligation), stored-block headers, stream headers, check_level_req, stateless stored-size bound input+5*max(1,ceil(n/65535))+wrapper with the compression attempt assumed, rejection of invalid flush/level before any change, sync_flush progress guard, level-0 body counters; write_stored_block loop contract in the thorough tier. Streaming termination over call histories is not decided.',
   level_note='Trusted: CBMC+MiniSat; ASSUMED contract for isal_deflate_int_stateless / body kernels. Not decided: streaming termination over call histories (liveness), assembly bodies.',
   assumptions=['compression kernels via assumed contracts'], not_decided=['termination of streaming for any output chunking'])
 
 P('C14', design_ref='7/C14', technique=TECH,
-  level_text='Proof per call: sync_flush emits 3 header bits, zero padding to a byte boundary and 00 00 FF FF, leaves the bit buffer empty, resets history iff FULL_FLUSH, and changes nothing when avail_out<8.',
+  level_text='Proof per call: sync_flush emits pending bits, zero padding and 00 00 FF FF, leaves the bit buffer empty and clears the history iff FULL_FLUSH, changes nothing when avail_out<8; reset_match_history overwrites every hash head; driver protocol of isal_deflate: no compression pass ever starts with has_hist==NO_HIST on a hash table that was not reset in this call (ghost flag, loop invariant over the do-while), with the pass itself an assumed model.',
   level_note='Trusted: CBMC+MiniSat; wmemset stub. Not decided: "no later match refers before a full flush" across kernels.',
   assumptions=[], not_decided=['cross-call history invariant', 'assembly bodies'])
 
 P('C17', design_ref='7/C17', technique=TECH,
-  level_text='Proof, full domain: distance/length symbol maps agree with RFC 1951 for all 1<=dist<=32768; window mask from hist_bits; dictionary set/reset state guards and last-window copy; match emission sites keep dist within the mask for one arbitrary iteration.',
+  level_text='Proof, full domain: distance/length symbol maps and packed tables agree with RFC 1951 for all 1<=dist<=32768 (also LONGER_HUFFTABLE and 8 KiB-window builds, thorough); set_dist_mask; level-0 bodies keep every emitted match inside the window and inside the input object (window invariant on a ghost hash head); isal_deflate recomputes the masks from the current hist_bits whenever the history state demands initialisation; dictionary functions: state guards with empty frame, last-window copy, whole table initialised, hash over the copied tail.',
   level_note='Trusted: CBMC+MiniSat. Not decided: dictionary round trip, assembly bodies.',
   assumptions=[], not_decided=['round trip with dictionaries', 'assembly match finders'])
 
 P('C18', design_ref='7/C18', technique=TECH + '; bounded stand-ins for canonical-code assignment',
-  level_text='Proof: length/distance symbol conversion vs RFC (full domain), are_hufftables_useable bound, run-length encoding validity, set_hufftables state guard; bounded: canonical code assignment on small alphabets.',
+  level_text='Proof: length/distance symbol conversion and packed tables vs RFC (full domain), are_hufftables_useable covers literal + every length symbol 257..285 + every distance symbol 0..29 within 56 bits, run-length coding validity (write_rl, rl_encode loop contract), dynamic-header field layout (create_huffman_header, create_header), set_hufftables state guard, heapify/build_heap/build_huff_tree memory safety and heap order (<=30 nodes), init_heap*, flatten_ll, constant tables (static = RFC fixed code; default: prefix-free, complete, canonical, header parses to its code lengths). Bounded: canonical code assignment and tree shape on small alphabets. fix_code_lens is not decided.',
   level_note='Trusted: CBMC+MiniSat. build_huff_tree is assembly on x86 (assumed). Not decided: isal_create_hufftables end to end.',
   assumptions=[], not_decided=['isal_create_hufftables end to end', 'decoder parses header to the same codes'])
 
 P('C01', design_ref='7/C01', technique=TECH,
-  level_text='Component contracts only: bit writer, match comparison, symbol maps, ICF packing and encoding loop, stored fallback, trailer, flush marker, headers. The end-to-end lossless statement is NOT decided.',
+  level_text='Component contracts only: bit writer, compare258, symbol maps and packed tables vs RFC, level-0 bodies (every emitted match is a true match inside the window, literals are the input bytes, stores inside the output window), ICF token packing and encoding loop (<=2 tokens quick, <=4 thorough), stored fallback, trailer, flush marker, headers, constant-run fast path counters. The end-to-end lossless statement is NOT decided.',
   level_note='Trusted: CBMC+MiniSat. Not decided: LZ77 body/finish kernels (assembly), whole-pipeline induction.',
   assumptions=[], not_decided=['end-to-end round trip', 'assembly kernels'])
 
 P('C02', design_ref='7/C02', technique=TECH,
-  level_text='Component contracts only: bit reader, stored blocks, literal-block copy, overlapping copy, canonical code assignment, final input position. The end-to-end statement is NOT decided.',
+  level_text='Component contracts only: bit reader over a logical-stream invariant, read_header (stored branch, BTYPE dispatch), decode_literal_block for every avail_in, canonical code assignment (set_codes), the portable decode loop under abstract symbol decoders (accounting, END_INPUT restore, OUT_OVERFLOW records, look-back both directions), drivers (final input position relative to the callees, decoder always entered with empty pending records); bounded: byte_copy, code-length decoding of dynamic headers, distance/header table builders. The end-to-end statement is NOT decided.',
   level_note='Trusted: CBMC+MiniSat. Not decided: lookup-table construction, decode loop functional correctness, asm decode kernels.',
   assumptions=[], not_decided=['make_inflate_huff_code_*', 'decode loop functional correctness'])
 
 P('C06', design_ref='7/C06', technique=TECH,
-  level_text='Component contracts over arbitrary bytes: reserved block type, LEN/NLEN mismatch, over-subscribed code sets rejected; header readers / checksum checkers return only documented codes and stay in bounds.',
+  level_text='Component contracts over arbitrary bytes: reserved block type, LEN/NLEN mismatch, HLIT/HDIST range, over-subscribed code sets, invalid symbols and look-back before the start of output are rejected with the documented code; header readers / checksum checkers / drivers return only documented codes and stay in bounds; decode loop terminates (decreases) and never writes outside its window.',
   level_note='Trusted: CBMC+MiniSat. Not decided: whole-decoder never-false-success, progress across calls, asm kernels.',
   assumptions=[], not_decided=['whole decoder', 'asm kernels'])
 
 P('C07', design_ref='7/C07', technique=TECH,
-  level_text='Per-call progress contracts of the resumable helpers (header writers/readers, stored blocks, checksum checks): one call emits/consumes exactly the next min(remaining, space) bytes for any split. The induction over call histories is stated, not mechanised.',
+  level_text='Per-call progress contracts of the resumable helpers: write_header (BFINAL only in the first byte; caller must arm the flag: call-site obligation in isal_deflate_pass), stream headers, stored blocks, trailer, fixed_size_read and the header readers (state invariant re-established on every resumable status), read_header_stateful, trailer checks, decode_literal_block, decode-loop END_INPUT restore, inflate drivers (pending records consumed and zeroed before the decoder runs again). The induction over call histories is stated, not mechanised.',
   level_note='Trusted: CBMC+MiniSat. Not decided: equality of streaming and one-shot results as wholes.',
   assumptions=[], not_decided=['induction over call histories'])
 
 P('C05', design_ref='7/C05', technique=TECH + '; exact-size is_fresh buffers, frame clauses',
-  level_text='Memory safety of every function under contract: each harness gives the function exactly the bytes its arguments declare (is_fresh of exactly len bytes), so one byte read or written outside is a failed pointer/bounds/assigns obligation, for every length including 0.',
+  level_text='Memory safety of every function under contract: each harness hands the function exactly the bytes its arguments declare (is_fresh of exactly len bytes; exact frames), so one byte read or written outside is a failed pointer/bounds/assigns obligation, for every length including 0; quick tier = representative subset per family, thorough = all harnesses. Streaming drivers: see deflate_driver_mem / inflate_driver_mem where registered.',
   level_note='Trusted: CBMC memory model (no alignment, object-granular). Not decided: assembly kernels, isal_deflate/isal_inflate as wholes, guard-page placement.',
   assumptions=[], not_decided=['assembly kernels', 'whole streaming entry points'])
 
 P('C15', design_ref='7/C15', technique=TECH + '; frame (assigns) clauses, init/reset field contracts',
-  level_text='Every enforced contract has an explicit frame naming only caller-owned objects, so a write to any library global is a failed assigns obligation; init/reset functions have field-by-field postconditions.',
+  level_text='Every enforced contract has an explicit frame naming only caller-owned objects, so a write to any library global is a failed assigns obligation (e.g. static_hufftables in create_hufftables_icf); init/reset functions have field-by-field postconditions and reset(garbage)==init; isal_deflate_process_dict neither reads its output struct nor leaves table bytes uninitialised.',
   level_note='Trusted: CBMC. Not decided: thread interleavings, racing first calls through the assembly dispatchers.',
   assumptions=['sequential semantics'], not_decided=['thread interleavings', 'dispatcher cold start'])
 
